@@ -180,6 +180,12 @@ func (s *RandomSched) Next(w *World, choices []Choice) (int, time.Duration) {
 }
 
 func (s *RandomSched) Join(w *World, choices []Choice) int {
+	// an event that waits for a delivery into its node and has found one
+	for i, c := range choices {
+		if c.Affine && s.R.Bool(0.35) {
+			return i
+		}
+	}
 	if !s.R.Bool(s.JoinP) {
 		return -1
 	}
